@@ -236,6 +236,8 @@ type params struct {
 	issuer   string // the issuer of this case's requests
 	dynIssuer bool  // the issuer is derived from every request (issMode != "static")
 	issMode  string // static | host (op.IssuerFromHost) | forwarded (op.IssuerFromForwardedOrHost) | custom (... WithIssuerFromCustomHeaders)
+	atIDSuffix string // the storage's access-token ids are "at<n>" + this (no ':')
+	sweep     int   // >= 0: slot of the Unicode sweep (subject unicodeSubjects[sweep], opaque token, a flow that reads it back)
 	uiReplace bool  // storage style: SetUserinfoFrom* REPLACE the destination struct instead of setting fields of it
 	upstream string // forwarded / custom: the Host the provider sees behind the proxy; "" = the request arrives directly (no header: fallback to Host)
 	customs  []string // the custom:<name> scopes added to the request (claim-name dimension)
@@ -288,6 +290,35 @@ var flows = []string{"code", "implicit_id", "implicit_tok", "refresh", "device",
 
 var subjects = []string{"alice", "bob", "alice", "tenant:alice", "a:b:c", ":lead", "trail:", "nobody", "user@example.com",
 	"Alice", "alice ", " bob", "null", "de\u017fk", "0"} // case / white-space neighbours of other subjects, keyword-like values
+
+// unicodeSubjects: subjects (and token-id suffixes) over the whole Unicode range, so that every
+// UTF-8 continuation byte 0x80-0xBF and every lead-byte class occurs: U+0080-U+00FF eight code
+// points at a time (C1 controls incl. U+0085, NBSP, soft hyphen U+00AD, every Latin-1 letter),
+// Latin Extended, Greek, Cyrillic, Hebrew / Arabic, CJK, Hangul, emoji with ZWJ and variation
+// selector, combining marks, BOM, U+2028, the boundaries of the 2- / 3- / 4-byte forms, and the
+// colon cases. None contains ':' except the last three.
+var unicodeSubjects = func() []string {
+	out := []string{}
+	for base := 0x80; base < 0x100; base += 8 {
+		s := "u"
+		for c := base; c < base+8; c++ {
+			s += string(rune(c))
+		}
+		out = append(out, s)
+	}
+	return append(out,
+		"\u0141\u00f3d\u017a \u0130\u015ftvan \u017d\u00e1k \u00d8\u00df\u00ed", // Latin Extended-A, Ö ß í neighbours
+		"\u0391\u03b8\u03ae\u03bd\u03b1 \u041c\u043e\u0441\u043a\u0432\u0430 \u0429\u0451\u0457",
+		"\u05e9\u05dc\u05d5\u05dd \u0645\u0631\u062d\u0628\u0627",
+		"\u4e2d\u6587\u7528\u6237 \u65e5\u672c\u8a9e \ud55c\uad6d\uc5b4",
+		"\U0001F600\U0001F469\u200d\U0001F4BB\u2764\ufe0f",
+		"e\u0301 a\u0308\u0323 \u1e69 n\u0303",
+		"\ufeffbom \u00a0nbsp \u0085nel \u00adshy \u2028ls \u200bzw",
+		"\u007f\u0080\u07ff\u0800\uffff\U00010000\U0010FFFF\ufffd",
+		"\u00d6:\u00df", ":\u0141\u00f3d\u017a", "\u4e2d:\u6587:")
+}()
+
+var sweepFlows = []string{"code", "implicit_tok", "refresh", "device", "te_access", "te_refresh", "code", "device"}
 
 var scopeSets = [][]string{
 	{"openid"},
@@ -468,8 +499,8 @@ var issuerHosts = []string{"op.example.com", "tenant-a.example.com", "login.exam
 
 // histSlot: the parameters open a multi-issuance history (JWT access tokens are preferred there:
 // only then does one response make two Storage.SigningKey calls)
-func gen(r drv.Rand, i int, nKeys int, histSlot bool) params {
-	p := params{}
+func gen(r drv.Rand, i int, nKeys int, histSlot bool, sweep int) params {
+	p := params{sweep: sweep}
 	p.cid = drv.Pick(r, []string{"web", "web", "desk"})
 	p.issuer = opfix.Issuer
 	// every grant x router also under an issuer that is derived from each request
@@ -490,6 +521,9 @@ func gen(r drv.Rand, i int, nKeys int, histSlot bool) params {
 	p.uiReplace = r.Chance(1, 3)
 	p.router = opfix.Router(i % 2)
 	p.flow = flows[(i/2)%len(flows)]
+	if sweep >= 0 {
+		p.flow = sweepFlows[sweep%len(sweepFlows)]
+	}
 	p.key = (i / (2 * len(flows)) + i) % nKeys
 	if r.Chance(1, 3) {
 		p.key = r.IntN(nKeys)
@@ -511,6 +545,12 @@ func gen(r drv.Rand, i int, nKeys int, histSlot bool) params {
 	if histSlot && r.Chance(1, 2) {
 		p.jwtAT = true
 	}
+	if sweep >= 0 {
+		p.jwtAT = sweep%5 == 4 // mostly the opaque form: AES(tokenID ":" subject), read back by the provider
+	}
+	if r.Chance(1, 5) || (sweep >= 0 && sweep%2 == 1) {
+		p.atIDSuffix = "-" + strings.ReplaceAll(drv.Pick(r, unicodeSubjects[:len(unicodeSubjects)-3]), " ", "")
+	}
 	p.skew = drv.Pick(r, []int64{0, 0, 30, -30})
 	p.idLife = drv.Pick(r, []int64{40, 600, 3600, 3600})
 	p.atLife = drv.Pick(r, []int64{45, 300, 300, 3600})
@@ -527,6 +567,12 @@ func gen(r drv.Rand, i int, nKeys int, histSlot bool) params {
 		p.dropAT = []string{drv.Pick(r, []string{"custom:x", "custom:y", "email", "address"})}
 	}
 	p.subject = drv.Pick(r, subjects)
+	if r.Chance(1, 6) {
+		p.subject = drv.Pick(r, unicodeSubjects)
+	}
+	if sweep >= 0 {
+		p.subject = unicodeSubjects[sweep%len(unicodeSubjects)]
+	}
 	p.aud = audienceFor(r, p.cid)
 	if r.Chance(3, 4) {
 		p.nonce = drv.Pick(r, []string{"n-0S6_WzA2Mj", "nonce with space", "n\"q", "n-0S6_WzA2Mj", " lead", "trail ", "null", "0", "false",
@@ -546,6 +592,9 @@ func gen(r drv.Rand, i int, nKeys int, histSlot bool) params {
 	}
 	if r.Chance(1, 2) {
 		p.tePolSub = drv.Pick(r, []string{"bob", "alice", "tenant:alice", "ghost", "Alice", "a:b:c", "web"})
+	}
+	if sweep >= 0 && p.tePolSub != "" { // the retargeted subject of an exchange: Unicode as well
+		p.tePolSub = unicodeSubjects[(sweep+7)%len(unicodeSubjects)]
 	}
 	p.tePolEmpty = r.Chance(1, 8)
 	p.teDropScope = r.Chance(1, 4)
@@ -722,7 +771,8 @@ func setup(p params, sk signState, provAlgs []string) (*refstore.Store, *opfix.F
 	desk := *st.Clients["web"] // the same registration under an id with s and k in it
 	desk.ID, desk.Secret = "desk", "desk-secret"
 	st.Clients["desk"] = &desk
-	for _, s := range subjects {
+	st.SetAccessTokenIDSuffix(p.atIDSuffix)
+	for _, s := range append(append([]string{}, subjects...), unicodeSubjects...) {
 		if s != "nobody" && st.Users[s] == nil {
 			st.Users[s] = &refstore.User{Subject: s, Name: "N " + s, Email: "e@" + strings.ReplaceAll(s, ":", ".")}
 		}
@@ -1334,6 +1384,38 @@ func audClass(aud []string, cid string) string {
 	return "other"
 }
 
+// byteClass: ascii, or which UTF-8 forms occur (2 / 3 / 4-byte) and whether a byte 0x80-0x9F or 0xAD does
+func byteClass(s string) string {
+	forms, low := map[int]bool{}, false
+	for i := 0; i < len(s); i++ {
+		c := s[i]
+		switch {
+		case c >= 0xf0:
+			forms[4] = true
+		case c >= 0xe0:
+			forms[3] = true
+		case c >= 0xc0:
+			forms[2] = true
+		}
+		if (c >= 0x80 && c <= 0x9f) || c == 0xad {
+			low = true
+		}
+	}
+	if len(forms) == 0 {
+		return "ascii"
+	}
+	out := "utf8"
+	for _, n := range []int{2, 3, 4} {
+		if forms[n] {
+			out += fmt.Sprintf("-%d", n)
+		}
+	}
+	if low {
+		out += "-c1"
+	}
+	return out
+}
+
 // nameClass: the custom claim names of the request
 func nameClass(customs []string) string {
 	if len(customs) == 0 {
@@ -1418,7 +1500,7 @@ func oneCaseRot(p params, sk, sk2 signState, rot int, st *refstore.Store, f *opf
 	}
 	reqTerm := emit.Ctor("mkReq", emit.Str(res.rqSub), emit.StrList(optStrs(res.rqAud)), emit.StrList(optStrs(res.rqScopes)),
 		emit.Str(res.rqNonce), emit.Str(res.rqACR), emit.StrList(optStrs(res.rqAMR)), emit.Z(res.rqAuth), emit.Str(res.rqActor))
-	idsTerm := emit.Ctor("mkIds", emit.Str(fmt.Sprintf("at%d", res.seq+1)), emit.Str(fmt.Sprintf("rt%d", res.seq+1)), emit.Str(fmt.Sprintf("at%d", res.seq+2)))
+	idsTerm := emit.Ctor("mkIds", emit.Str(fmt.Sprintf("at%d", res.seq+1)+p.atIDSuffix), emit.Str(fmt.Sprintf("rt%d", res.seq+1)), emit.Str(fmt.Sprintf("at%d", res.seq+2)+p.atIDSuffix))
 
 	var rawOpaque []byte
 	isJWT := strings.Count(res.access, ".") == 2
@@ -1599,7 +1681,7 @@ func oneCaseRot(p params, sk, sk2 signState, rot int, st *refstore.Store, f *opf
 			tepol = "noscopes"
 		}
 	}
-	tags := []string{"uistyle=" + map[bool]string{true: "replace", false: "fields"}[p.uiReplace], "tepolicy=" + tepol, fmt.Sprintf("actor=%v", res.rqActor != ""), "client=" + p.cid, "issuer=" + issKind, "aud=" + audClass(res.rqAud, res.client), "claimnames=" + nameClass(p.customs),
+	tags := []string{"subject_bytes=" + byteClass(res.rqSub), "tokenid_bytes=" + byteClass(p.atIDSuffix), fmt.Sprintf("sweep=%v", p.sweep >= 0), "uistyle=" + map[bool]string{true: "replace", false: "fields"}[p.uiReplace], "tepolicy=" + tepol, fmt.Sprintf("actor=%v", res.rqActor != ""), "client=" + p.cid, "issuer=" + issKind, "aud=" + audClass(res.rqAud, res.client), "claimnames=" + nameClass(p.customs),
 		"router=" + p.router.String(), "flow=" + p.flow, "at=" + atKind, "alg=" + string(sk.alg), fmt.Sprintf("skew=%d", p.skew),
 		fmt.Sprintf("idlife=%d", p.idLife), fmt.Sprintf("atlife=%d", p.atLife), "subject_colon=" + colon, "openid=" + openid,
 		"assert=" + emit.Bool(p.assert), fmt.Sprintf("offset=%d", p.offset), fmt.Sprintf("custom=%v", contains(res.rqScopes, "custom:x") || contains(res.rqScopes, "custom:y")),
@@ -1772,22 +1854,27 @@ func main() {
 	tl := &tally{}
 	// plain slots and history slots count separately, so that router x flow (x static / dynamic
 	// issuer) cycle completely within each kind
-	plain, hist := 0, 0
+	plain, hist, sweep := 0, 0, 0
 	for i, tries := 0, 0; w.Len() < n && tries < 3*n+100; i, tries = i+1, tries+1 {
 		if i%4 != 3 {
-			p := gen(r, plain, len(algs), false)
+			sw := -1
+			if i%8 == 5 { // the Unicode sweep: every 8th slot takes the next subject of unicodeSubjects
+				sw = sweep
+				sweep++
+			}
+			p := gen(r, plain, len(algs), false, sw)
 			plain++
 			sk := stateOf(p, algs)
 			st, f := setup(p, sk, []string{string(sk.alg)})
 			oneCase(p, sk, st, f, pool, "none", w, tl)
 			continue
 		}
-		p := gen(r, hist, len(algs), true)
+		p := gen(r, hist, len(algs), true, -1)
 		hist++
 		history(r, p, sk0(p, algs), algs, pool, w, tl)
 	}
 	err := w.Close(emit.Meta{Property: "C06", Tier: cfg.Tier, Seed: cfg.Seed,
-		Rule: "one case = one token response: a complete flow (code, implicit id_token / id_token token, refresh, device, client_credentials, jwt-bearer, token-exchange for access / refresh / ID token) run over HTTP recorders against the Provider or LegacyServer router on refstore; flow and router cycle deterministically, the rest is drawn from the PRNG: signing key (RS256, PS256, ES256, ES384, ES512, EdDSA; two key materials per algorithm under the SAME kid, kid shared across algorithms in half of the cases; published with use sig or without use, with further keys before / after it: previous key, an enc key and a key of another type under the same kid, rarely a clashing signature key), access-token type, client clock skew (0, +-30 s), ID/access-token lifetimes, scope set (15 base sets plus a random extra standard scope: with/without openid, every subset pattern of profile/email/phone/address, offline_access, custom:x/y; the storage serves a distinct claim group per standard scope and marks userinfo scopes that reach the private-claims lookup), restricted scopes, userinfo-assertion flag, subject (also with ':', unknown to the user store, case / white-space neighbours of other subjects, keyword-like values), client (web, or the same registration as desk), issuer strategy (static; or - every other block of all flows x routers plus a quarter of the rest - derived from each request: op.IssuerFromHost, or op.IssuerFromForwardedOrHost with the Forwarded header or with a custom header, where a reverse proxy in front of the provider moves the external host into that header and hands every request on with the SAME upstream Host, or lets it through directly; five external hosts incl. a port and mixed case), storage style of the userinfo calls (sets fields of the destination / replaces the whole struct), the storage-defined audience (default, empty, the exact client id, near misses of the client id: case variants, U+017F / U+212A fold variants, white space / %20 / + / tab / LF around it, trailing slash; other values; several; for authorization, device and token-exchange requests), custom claim names (half of the cases add 1-2 scopes custom:<n>, which the storage turns into the private claim <n> of a JWT access token and the userinfo claim <n> of an ID token: exact names, ASCII-case variants and U+017F / U+212A fold variants of the registered members this case's tokens are certain to carry, near misses that fold to no member, variants of sid / scope), the token-exchange storage policy of the fixture (plain, or ValidateTokenExchangeRequest retargets the request's subject - another known / unknown user - and / or empties its scopes; the request may ask for scope drop, which the storage removes; a third of the exchanges present an actor_token of a third user: the case names the request's FINAL subject / scopes and the actor), nonce/acr/state (also white space at the ends, null / 0 / false / [], longer than 1 KiB and 4 KiB), amr, auth time, and the verifier configuration (consistent in most cases; default algorithm list, short offset against a negative skew as inconsistent ones). Every fourth slot is a multi-issuance history in one store/provider (tag hist=): issue, replace the storage's signing key (same kid new material and back; new kid new material with the old key still published; same kid other algorithm), issue again - or two providers alive at once with the same kid and different key material, issuing alternately, or the signing key replaced after the 1st / 2nd Storage.SigningKey call WITHIN the request under test (new kid, mostly another hash family, both keys published), or one dynamic-issuer provider serving external host A, host B, host A - by Host, or both through the same proxy upstream Host by Forwarded / custom header, B sometimes directly (two_issuers), or one provider serving a request that carries every optional field (nonce, acr, amr, audience, auth time, custom claims), then a request of another flow / maybe the other client for the same subject that OMITS them, then the rich request for the other client, then the first again (omit_after); each response is a case of its own whose input names the key current at that issuance and which is verified against the /keys document served at that time. Claims are compared as the library's own decoder reads the signed payload (json.Unmarshal into oidc.IDTokenClaims / oidc.AccessTokenClaims). Every case issues tokens, so non-trivial = all; distinct = distinct (input, model path class: flow x token kind x refresh token x verdicts).",
+		Rule: "one case = one token response: a complete flow (code, implicit id_token / id_token token, refresh, device, client_credentials, jwt-bearer, token-exchange for access / refresh / ID token) run over HTTP recorders against the Provider or LegacyServer router on refstore; flow and router cycle deterministically, the rest is drawn from the PRNG: signing key (RS256, PS256, ES256, ES384, ES512, EdDSA; two key materials per algorithm under the SAME kid, kid shared across algorithms in half of the cases; published with use sig or without use, with further keys before / after it: previous key, an enc key and a key of another type under the same kid, rarely a clashing signature key), access-token type, client clock skew (0, +-30 s), ID/access-token lifetimes, scope set (15 base sets plus a random extra standard scope: with/without openid, every subset pattern of profile/email/phone/address, offline_access, custom:x/y; the storage serves a distinct claim group per standard scope and marks userinfo scopes that reach the private-claims lookup), restricted scopes, userinfo-assertion flag, subject (also with ':', unknown to the user store, case / white-space neighbours of other subjects, keyword-like values; a sixth of the cases and every slot of the Unicode sweep - each 8th slot, mostly opaque tokens, flows that read the token back - take the next of 27 subjects that cover U+0080-U+00FF completely, i.e. every UTF-8 continuation byte 0x80-0xBF, C1 controls, NBSP, soft hyphen, Latin Extended, Greek, Cyrillic, Hebrew, Arabic, CJK, Hangul, emoji with ZWJ, combining marks, BOM, the 2/3/4-byte boundaries, with and without ':'), the storage's access-token ids (at<n>, or at<n> plus such a Unicode suffix), client (web, or the same registration as desk), issuer strategy (static; or - every other block of all flows x routers plus a quarter of the rest - derived from each request: op.IssuerFromHost, or op.IssuerFromForwardedOrHost with the Forwarded header or with a custom header, where a reverse proxy in front of the provider moves the external host into that header and hands every request on with the SAME upstream Host, or lets it through directly; five external hosts incl. a port and mixed case), storage style of the userinfo calls (sets fields of the destination / replaces the whole struct), the storage-defined audience (default, empty, the exact client id, near misses of the client id: case variants, U+017F / U+212A fold variants, white space / %20 / + / tab / LF around it, trailing slash; other values; several; for authorization, device and token-exchange requests), custom claim names (half of the cases add 1-2 scopes custom:<n>, which the storage turns into the private claim <n> of a JWT access token and the userinfo claim <n> of an ID token: exact names, ASCII-case variants and U+017F / U+212A fold variants of the registered members this case's tokens are certain to carry, near misses that fold to no member, variants of sid / scope), the token-exchange storage policy of the fixture (plain, or ValidateTokenExchangeRequest retargets the request's subject - another known / unknown user - and / or empties its scopes; the request may ask for scope drop, which the storage removes; a third of the exchanges present an actor_token of a third user: the case names the request's FINAL subject / scopes and the actor), nonce/acr/state (also white space at the ends, null / 0 / false / [], longer than 1 KiB and 4 KiB), amr, auth time, and the verifier configuration (consistent in most cases; default algorithm list, short offset against a negative skew as inconsistent ones). Every fourth slot is a multi-issuance history in one store/provider (tag hist=): issue, replace the storage's signing key (same kid new material and back; new kid new material with the old key still published; same kid other algorithm), issue again - or two providers alive at once with the same kid and different key material, issuing alternately, or the signing key replaced after the 1st / 2nd Storage.SigningKey call WITHIN the request under test (new kid, mostly another hash family, both keys published), or one dynamic-issuer provider serving external host A, host B, host A - by Host, or both through the same proxy upstream Host by Forwarded / custom header, B sometimes directly (two_issuers), or one provider serving a request that carries every optional field (nonce, acr, amr, audience, auth time, custom claims), then a request of another flow / maybe the other client for the same subject that OMITS them, then the rich request for the other client, then the first again (omit_after); each response is a case of its own whose input names the key current at that issuance and which is verified against the /keys document served at that time. Claims are compared as the library's own decoder reads the signed payload (json.Unmarshal into oidc.IDTokenClaims / oidc.AccessTokenClaims). Every case issues tokens, so non-trivial = all; distinct = distinct (input, model path class: flow x token kind x refresh token x verdicts).",
 		Extra: map[string]any{"clock_ambiguous": tl.ambiguous, "setup_failed": tl.failedSetup}})
 	if err != nil {
 		fmt.Fprintln(os.Stderr, err)
